@@ -115,6 +115,9 @@ AnyV == [t |-> "any", v |-> <<>>]
 ArrOpenAny(pre, x) == Tok(<<91>> \o Concat([i \in 1..Len(pre) |-> pre[i].txt \o <<32>>]) \o x.txt \o <<32, 46, 46, 46, 93>>,
                           << [t |-> "a", el |-> Concat([i \in 1..Len(pre) |-> pre[i].val]) \o << [t |-> "...", v |-> <<AnyV, AnyV, AnyV>>] >>] >>)
 \* separators: " ", "  ", newline, " % c\n", newline + indentation
-Seps == { <<32>>, <<32, 32>>, <<10>>, <<32, 37, 32, 99, 10>>, <<10, 32, 32, 32, 32>> }
+Seps == { <<32>>, <<32, 32>>, <<10>>, <<32, 37, 32, 99, 10>>, <<10, 32, 32, 32, 32>>,
+          <<32, 37, 32, 99, 10, 32, 32>>,                       \* a comment, then an indented next line
+          <<32, 37, 32, 99, 10, 10>>,                           \* a comment, then a blank line
+          <<32, 37, 97, 10, 32, 32, 37, 32, 98, 10>> }          \* two comments, the second one indented
 Trailers == { <<>>, <<32>>, <<10>>, <<32, 37, 99>> }
 =============================================================================
